@@ -240,6 +240,79 @@ return p
 """
 
 
+GENV_DATA = "return {r = table.concat({tostring(io ~= nil), tostring(os ~= nil and os.execute ~= nil), tostring(loadstring ~= nil), tostring(python ~= nil), tostring(getfenv ~= nil)}, ',')}"
+GENV_MAIN = r"""
+local p = {}
+function p.plain(frame) return mw.loadData('Module:vfgd1').r end
+function p.pushfalse(frame) _python_append_env(false); return mw.loadData('Module:vfgd2').r end
+function p.pushnil(frame) _python_append_env(nil); return mw.loadData('Module:vfgd3').r end
+function p.req(frame) _python_append_env(false); local ok, m = pcall(require, 'Module:vfgd4'); return ok and m.r or 'ERR' end
+return p
+"""
+
+
+def host_globals_not_passed(rep: C.Report) -> None:
+    """Ob6: phase 1 of the sandbox bootstrap runs in the HOST Lua state, where `_G` is the unrestricted global table.  The code
+    there may mention `_G` only as a key (`_G = true` in the name lists, env["_G"]) and in `setmetatable(_G, nil)`; any other
+    use reads the host globals as a value (e.g. as the environment of a loader).  Facts from the current source (comments and
+    strings stripped), finite z3 query; a hit is replayed: data modules loaded through mw.loadData / require after the
+    environment stack has been tampered with through the whitelisted helpers must still see no host library."""
+    ob = rep.add(C.Ob("Ob6 the bootstrap never hands the host's global table to sandboxed code", "z3 over facts read from the current Lua source (finite) + behavioural replay in the real sandbox", ["lua/_sandbox_phase1.lua (every use of _G)"], "all occurrences of the identifier _G outside comments and strings"))
+    try:
+        src = open(os.path.join(C.SRC, "lua", "_sandbox_phase1.lua")).read()
+        code = re.sub(r"--\[\[.*?\]\]", "", src, flags=re.S)
+        code = "\n".join(line.split("--")[0] for line in code.splitlines())
+        code = re.sub(r'"(?:[^"\\\n]|\\.)*"|\'(?:[^\'\\\n]|\\.)*\'', '""', code)
+        uses = []
+        for m in re.finditer(r"(?<![A-Za-z0-9_.])_G(?![A-Za-z0-9_])", code):
+            before = code[max(0, m.start() - 40) : m.start()]
+            after = code[m.end() : m.end() + 20]
+            line = code.count("\n", 0, m.start()) + 1
+            if re.match(r"\s*=\s*(true|false)\b", after):
+                kind = "key"
+            elif re.search(r"setmetatable\(\s*$", before) and re.match(r"\s*,\s*nil\s*\)", after):
+                kind = "drop-metatable"
+            else:
+                kind = "value"
+            uses.append((line, kind))
+        ob.samples.append({"uses_of__G": uses})
+        s_ = z3.Solver()
+        i = z3.Int("i")
+        is_value = z3.Function("is_value", z3.IntSort(), z3.BoolSort())
+        for k, (_, kind) in enumerate(uses):
+            s_.add(is_value(k) == (kind == "value"))
+        s_.add(i >= 0, i < len(uses), is_value(i))
+        r = str(s_.check()) if uses else "unsat"
+        ob.queries = ob.paths = ob.conditions = 1
+        if r == "unsat":
+            ob.verdict = C.DISCHARGED
+            ob.confirmed_conditions = 1
+            return
+        hit = uses[s_.model()[i].as_long()]
+        from vf.wtpfix import new_ctx, close
+
+        w = new_ctx(modules={"vfg": GENV_MAIN, "vfgd1": GENV_DATA, "vfgd2": GENV_DATA, "vfgd3": GENV_DATA, "vfgd4": GENV_DATA})
+        res = {}
+        for fn in ("plain", "pushfalse", "pushnil", "req"):
+            w.start_page("T" + fn)
+            try:
+                res[fn] = w.expand("{{#invoke:vfg|%s}}" % fn)
+            except Exception as e:  # noqa: BLE001
+                res[fn] = f"EXC {type(e).__name__}"
+        close(w)
+        ob.samples.append({"replay": res})
+        leaks = {k: v for k, v in res.items() if "true" in v}
+        if leaks:
+            k, v = sorted(leaks.items())[0]
+            v_ = rep.violation(f"expand('{{{{#invoke:vfg|{k}}}}}') with a data module that reports whether io / os.execute / loadstring / python / getfenv are visible", f"a module loaded by the sandbox sees host libraries (io, os.execute, loadstring, python, getfenv = {v}); _sandbox_phase1.lua:{hit[0]} uses the host's _G as a value", {"line": hit[0]})
+            ob.verdict = C.VIOLATED if v_.known is None else C.KNOWN
+            ob.confirmed_conditions = 1
+        else:
+            ob.detail = f"_G is used as a value at _sandbox_phase1.lua:{hit[0]} but the probes see no host library ({res}) -> inconclusive"
+    except Exception as e:  # noqa: BLE001
+        ob.detail += f"{type(e).__name__}: {e}"
+
+
 def env_whitelist(rep: C.Report) -> None:
     """Ob5: no entry of the sandbox environment is (an alias of) a host capability.  Facts read from the current Lua source:
     env["k"] = v assignments inside _lua_reset_env, and `local a = <expr>` aliases; a value is a host capability if, after
@@ -362,6 +435,7 @@ def run(rep: C.Report) -> None:
         rep.add(C.Ob("Ob1/Ob2 gates", "E1 CrossHair", [], "", verdict=C.NOT_ENCODABLE, detail=f"{type(e).__name__}: {e}"))
     runtime_facts(rep)
     env_whitelist(rep)
+    host_globals_not_passed(rep)
 
 
 def replay(r: dict) -> int:
